@@ -380,8 +380,8 @@
 @@ FileStore::get_initial_state@RaftStorage<ClientRequest,ClientResponse> spec
     // C05 (storage boundary, restart): the hard state and the last-applied index the Raft core starts from are EXACTLY what the index
     // manager reports (which, by the handler contract in unit raftindex, is what was saved last): term unchanged, vote 0 = none
-    ensures final(vx_log).replies.len() == old(vx_log).replies.len() + 1,   // @C05
-        match final(vx_log).replies.last() {   // @C05
+    ensures final(vx_replies).r.len() == old(vx_replies).r.len() + 1,   // @C05
+        match final(vx_replies).r.last() {   // @C05
             ReplyVal::Index(Ok(Ok(RaftIndexResponse::RaftIndexInfo { raft_index, last_applied_log }))) => r is Ok
                 && r.unwrap().hard_state.current_term == raft_index.current_term   // @C05
                 && r.unwrap().hard_state.voted_for == (if raft_index.voted_for > 0 { Some(raft_index.voted_for) } else { None::<u64> })   // @C05
@@ -394,4 +394,77 @@
     broadcast use axiom_reply_val_index;
 @@ FileStore::get_last_log_index effects send
 @@ FileStore::get_last_log_index spec
-    ensures final(vx_log).s == old(vx_log).s.push(sent(self.log_manager, RaftLogManagerAsyncRequest::GetLastLogIndex)), final(vx_log).replies == old(vx_log).replies,
+    ensures final(vx_log).s == old(vx_log).s.push(sent(self.log_manager, RaftLogManagerAsyncRequest::GetLastLogIndex)),
+@@ StateApplyManager::do_build_snapshot effects send
+@@ StateApplyManager::do_build_snapshot effects_pass build_snapshot
+@@ StateApplyManager::do_build_snapshot replies send
+@@ StateApplyManager::do_build_snapshot subst
+    super::raftlog::RaftLogResponse::QueryResult => RaftLogResponse::QueryResult
+    super::raftindex::RaftIndexRequest::LoadMember => RaftIndexRequest::LoadMember
+    super::raftsnapshot::SnapshotWriterRequest::Flush => SnapshotWriterRequest::Flush
+@@ StateApplyManager::do_build_snapshot spec
+    requires last_index < u64::MAX
+    // C01 (compaction at `last_index`): the term of that entry and the membership are asked for, a new snapshot is opened with a header
+    // that carries exactly them and `last_index`, all seven components write into THAT writer, the writer is flushed, and the snapshot
+    // is catalogued under the id it was opened with and the SAME index — in this order, nothing else
+    ensures r is Ok ==> final(vx_replies).r.len() >= old(vx_replies).r.len() + 3,
+        r is Ok ==> r.unwrap().0.last_index == last_index,
+        r is Ok ==> (final(vx_replies).r[old(vx_replies).r.len() as int] matches ReplyVal::Log(Ok(Ok(RaftLogResponse::QueryResult(list))))
+            && r.unwrap().0.last_term == (if list@.len() > 0 { list@.last().term } else { 0 })),
+        r is Ok ==> (final(vx_replies).r[old(vx_replies).r.len() as int + 1] matches ReplyVal::Index(Ok(Ok(RaftIndexResponse::MemberShip { member, member_after_consensus, node_addrs })))
+            && r.unwrap().0.member == member && r.unwrap().0.member_after_consensus == member_after_consensus && r.unwrap().0.node_addrs == node_addrs),
+        r is Ok ==> (final(vx_replies).r[old(vx_replies).r.len() as int + 2] matches ReplyVal::Snapshot(Ok(Ok(RaftSnapshotResponse::NewSnapshot(writer, id2, path2))))
+            && id2 == r.unwrap().2 && path2 == r.unwrap().1
+            && final(vx_log).s == old(vx_log).s + seq![
+                    sent(log_manager, RaftLogManagerAsyncRequest::Query { start: last_index, end: (last_index + 1) as u64 }),
+                    sent(index_manager, RaftIndexRequest::LoadMember),
+                    sent(snapshot_manager, RaftSnapshotRequest::NewSnapshot(r.unwrap().0))]
+                + build_effs(*data_wrap, writer)
+                + seq![sent(writer, SnapshotWriterRequest::Flush), sent(snapshot_manager, RaftSnapshotRequest::CompleteSnapshot(SnapshotRange { id: r.unwrap().2, end_index: last_index }))]),
+@@ StateApplyManager::do_build_snapshot entry
+    broadcast use axiom_reply_val_index, axiom_reply_val_log, axiom_reply_val_snapshot;
+@@ RaftSnapshotManager::get_snapshot_path external
+@@ RaftSnapshotManager::get_snapshot_path skip_body
+@@ RaftSnapshotManager::get_next_id spec
+    requires self.snapshots@.len() > 0 ==> self.snapshots@.last().id < u64::MAX
+    // C01: a new snapshot gets the id behind the LAST snapshot of the catalogue (1 when there is none); refused while one is being built
+    ensures *final(self) == *old(self),
+        old(self).building is Some ==> r is Err,
+        old(self).building is None ==> r is Ok && r.unwrap() == (if old(self).snapshots@.len() > 0 { (old(self).snapshots@.last().id + 1) as u64 } else { 1 }),
+@@ RaftSnapshotManager::load_snapshot_header chain 1
+    env path: String
+    returns anyhow::Result<SnapshotHeaderDto>
+@@ RaftSnapshotManager::load_snapshot_header subst
+    SnapshotReader::init(&path) => SnapshotReader::init(path.as_str())
+    Ok(reader.header) => Ok(reader.vx_into_header())
+@@ RaftSnapshotManager::load_snapshot_header chain 1 spec
+    requires all_snapshot_images_ok()
+    ensures r is Ok ==> snap_hdr(disk_at_open(path@)) == Some(r.unwrap()), final(vx_log).s == old(vx_log).s,
+@@ RaftSnapshotManager::load_snapshot_header spec
+    requires all_snapshot_images_ok()
+    // the header of the named snapshot file becomes the manager's last header (or nothing changes when the file cannot be read)
+    ensures final(self).snapshots == old(self).snapshots && final(self).building == old(self).building && final(self).index_manager == old(self).index_manager
+            && final(self).base_path == old(self).base_path && final(self).is_init == old(self).is_init,
+        final(self).last_header == old(self).last_header || exists|p: Seq<char>| final(self).last_header == #[trigger] snap_hdr(disk_at_open(p)),
+        final(vx_log).s == old(vx_log).s,
+@@ RaftSnapshotManager::load_snapshot_header effects_sig
+@@ RaftSnapshotManager::save_snapshot_to_index effects do_send
+@@ RaftSnapshotManager::save_snapshot_to_index effects_pass load_snapshot_header
+@@ RaftSnapshotManager::save_snapshot_to_index t20_calls load_snapshot_header
+@@ RaftSnapshotManager::save_snapshot_to_index spec
+    requires old(self).index_manager is Some, all_snapshot_images_ok()
+    // C01: the catalogue as it is now goes to the index manager, ONE SaveSnapshots message
+    ensures r is Ok, final(self).snapshots == old(self).snapshots && final(self).building == old(self).building && final(self).index_manager == old(self).index_manager,
+        exists|v: Vec<SnapshotRange>| v@ == old(self).snapshots@ && final(vx_log).s == old(vx_log).s.push(#[trigger] sent(old(self).index_manager.unwrap(), RaftIndexRequest::SaveSnapshots(v))),
+@@ RaftSnapshotManager::complete_snapshot effects_pass save_snapshot_to_index
+@@ RaftSnapshotManager::complete_snapshot t20_calls save_snapshot_to_index
+@@ RaftSnapshotManager::complete_snapshot subst
+    std::fs::remove_file(path).ok(); => vx_std_fs::remove_file(path).ok();
+    &self.snapshots[0..split_index] => vx_prefix(self.snapshots.as_slice(), split_index)
+@@ RaftSnapshotManager::complete_snapshot spec
+    requires old(self).index_manager is Some, all_snapshot_images_ok()
+    // C01 (compaction, catalogue): a completed snapshot becomes the LAST entry of the catalogue; of the older ones only the most recent
+    // is kept; the new catalogue is saved to the index manager (one message); nothing is being built any more
+    ensures r is Ok, final(self).building is None, final(self).index_manager == old(self).index_manager,
+        final(self).snapshots@ == (if old(self).snapshots@.len() > 1 { seq![old(self).snapshots@.last(), snapshot_range] } else { old(self).snapshots@.push(snapshot_range) }),
+        exists|v: Vec<SnapshotRange>| v@ == final(self).snapshots@ && final(vx_log).s == old(vx_log).s.push(#[trigger] sent(old(self).index_manager.unwrap(), RaftIndexRequest::SaveSnapshots(v))),
